@@ -2,7 +2,7 @@ package main
 
 var dbStubs = map[string]string{
 	"(github.com/tailscale/setec/acl.Rules).Allow": "verifAllowAll",
-	"tailscale.com/atomicfile.WriteFile":            "verifAtomicWrite",
+	"tailscale.com/atomicfile.WriteFile":           "verifAtomicWrite",
 }
 
 func init() {
@@ -44,7 +44,7 @@ func init() {
 		Bounds: map[string]string{"secrets_per_state": "2 / 3", "versions_per_secret": "2 / 3", "rule sets": "arbitrary: ALLOW(action,name) is an uninterpreted predicate"}}
 	stubs := map[string]string{
 		"(github.com/tailscale/setec/acl.Rules).Allow": "verifAllowUF",
-		"tailscale.com/atomicfile.WriteFile":            "verifAtomicWrite",
+		"tailscale.com/atomicfile.WriteFile":           "verifAtomicWrite",
 	}
 	for _, n := range []string{"Info", "Get", "GetConditional", "GetVersion", "Put", "Activate", "DeleteVersion", "Delete"} {
 		c01.Harnesses = append(c01.Harnesses, &HarnessSpec{Name: "verifHarnessC01" + n, Pkg: "db", Stubs: stubs,
@@ -65,7 +65,7 @@ func init() {
 		Bounds: map[string]string{"secrets_per_state": "2 / 3", "versions_per_secret": "2 / 3", "sink faults": "every Write and every Sync may fail (nondet)"}}
 	stubs := map[string]string{
 		"(github.com/tailscale/setec/acl.Rules).Allow": "verifAllowUF",
-		"tailscale.com/atomicfile.WriteFile":            "verifAtomicWrite",
+		"tailscale.com/atomicfile.WriteFile":           "verifAtomicWrite",
 	}
 	for _, n := range []string{"Info", "Get", "GetConditional", "GetVersion", "Put", "Activate", "DeleteVersion", "Delete"} {
 		c06.Harnesses = append(c06.Harnesses, &HarnessSpec{Name: "verifHarnessC06" + n, Pkg: "db", Stubs: stubs,
@@ -77,13 +77,15 @@ func init() {
 			Params: map[string]int{"secrets": 2, "versions": 2}, ThoroughParams: map[string]int{"secrets": 3, "versions": 3},
 			ExpectReach: []string{"end"}, Desc: "audit: " + n})
 	}
+	c06.Harnesses = append(c06.Harnesses, &HarnessSpec{Name: "verifHarnessC05AuditFile", Pkg: "db", Stubs: dbEnvStubs, Params: map[string]int{},
+		ExpectReach: []string{"end"}, NoNative: "file-system model", Desc: "the audit file is opened write-only, append, create, owner-only (records are appended, never written over)"})
 	propRegistry = append(propRegistry, c06)
 }
 
 func init() {
 	stubs := map[string]string{
 		"(github.com/tailscale/setec/acl.Rules).Allow": "verifAllowUF",
-		"tailscale.com/atomicfile.WriteFile":            "verifAtomicWrite",
+		"tailscale.com/atomicfile.WriteFile":           "verifAtomicWrite",
 	}
 	propRegistry = append(propRegistry, &Property{ID: "C09", Pkgs: []string{"db"},
 		Harnesses: []*HarnessSpec{{Name: "verifHarnessC09GetConditional", Pkg: "db", Stubs: stubs,
@@ -101,36 +103,36 @@ func init() {
 		c14.Harnesses = append(c14.Harnesses, &HarnessSpec{Name: "verifHarnessC14Interleave" + n, Pkg: "db", Stubs: dbStubs,
 			Params: map[string]int{"secrets": 1, "versions": 2}, ThoroughParams: map[string]int{"secrets": 2, "versions": 3}, ExpectReach: []string{"end"},
 			NoNative: "the second request is run re-entrantly from the audit sink, a schedule the native harness cannot force",
-			Desc: "DB." + n + " with another client's whole request (put/activate/delete-version/delete on the same secret) executed in the window between its audit record and its critical section: state consistent, both puts retrievable under distinct numbers"})
+			Desc:     "DB." + n + " with another client's whole request (put/activate/delete-version/delete on the same secret) executed in the window between its audit record and its critical section: state consistent, both puts retrievable under distinct numbers"})
 	}
 	propRegistry = append(propRegistry, c14)
 }
 
 var dbEnvStubs = map[string]string{
-	"(github.com/tailscale/setec/acl.Rules).Allow":                                  "verifAllowAll",
-	"tailscale.com/atomicfile.WriteFile":                                             "verifDiskWriteModel",
-	"os.ReadFile":                                                                    "verifStubReadFile",
-	"os.WriteFile":                                                                   "verifStubOSWriteFile",
-	"os.OpenFile":                                                                    "verifStubOpenFile",
-	"os.Stat":                                                                        "verifStubStat",
-	"os.CreateTemp":                                                                  "verifStubCreateTemp",
-	"os.Remove":                                                                      "verifStubRemove",
-	"os.Rename":                                                                      "verifStubRename",
-	"(*os.File).Name":                                                                "verifStubFileName",
-	"(*os.File).Write":                                                               "verifStubFileWrite",
-	"(*os.File).Chmod":                                                               "verifStubFileChmod",
-	"(*os.File).Sync":                                                                "verifStubFileSync",
-	"(*os.File).Close":                                                               "verifStubFileClose",
-	"bytes.NewReader":                                                                "verifStubBytesNewReader",
-	"(*bytes.Buffer).Write":                                                          "verifStubBufWrite",
-	"(*bytes.Buffer).Bytes":                                                          "verifStubBufBytes",
-	"github.com/tink-crypto/tink-go/v2/aead.XChaCha20Poly1305KeyTemplate":            "verifStubKeyTemplate",
-	"github.com/tink-crypto/tink-go/v2/keyset.NewHandle":                             "verifStubNewHandle",
-	"github.com/tink-crypto/tink-go/v2/aead.New":                                     "verifStubAEADNew",
-	"github.com/tink-crypto/tink-go/v2/keyset.NewBinaryWriter":                       "verifStubNewBinaryWriter",
-	"github.com/tink-crypto/tink-go/v2/keyset.NewBinaryReader":                       "verifStubNewBinaryReader",
-	"(*github.com/tink-crypto/tink-go/v2/keyset.Handle).WriteWithAssociatedData":     "verifStubWriteWithAD",
-	"github.com/tink-crypto/tink-go/v2/keyset.ReadWithAssociatedData":                "verifStubReadWithAD",
+	"(github.com/tailscale/setec/acl.Rules).Allow": "verifAllowAll",
+	"tailscale.com/atomicfile.WriteFile":           "verifDiskWriteModel",
+	"os.ReadFile":                                  "verifStubReadFile",
+	"os.WriteFile":                                 "verifStubOSWriteFile",
+	"os.OpenFile":                                  "verifStubOpenFile",
+	"os.Stat":                                      "verifStubStat",
+	"os.CreateTemp":                                "verifStubCreateTemp",
+	"os.Remove":                                    "verifStubRemove",
+	"os.Rename":                                    "verifStubRename",
+	"(*os.File).Name":                              "verifStubFileName",
+	"(*os.File).Write":                             "verifStubFileWrite",
+	"(*os.File).Chmod":                             "verifStubFileChmod",
+	"(*os.File).Sync":                              "verifStubFileSync",
+	"(*os.File).Close":                             "verifStubFileClose",
+	"bytes.NewReader":                              "verifStubBytesNewReader",
+	"(*bytes.Buffer).Write":                        "verifStubBufWrite",
+	"(*bytes.Buffer).Bytes":                        "verifStubBufBytes",
+	"github.com/tink-crypto/tink-go/v2/aead.XChaCha20Poly1305KeyTemplate":        "verifStubKeyTemplate",
+	"github.com/tink-crypto/tink-go/v2/keyset.NewHandle":                         "verifStubNewHandle",
+	"github.com/tink-crypto/tink-go/v2/aead.New":                                 "verifStubAEADNew",
+	"github.com/tink-crypto/tink-go/v2/keyset.NewBinaryWriter":                   "verifStubNewBinaryWriter",
+	"github.com/tink-crypto/tink-go/v2/keyset.NewBinaryReader":                   "verifStubNewBinaryReader",
+	"(*github.com/tink-crypto/tink-go/v2/keyset.Handle).WriteWithAssociatedData": "verifStubWriteWithAD",
+	"github.com/tink-crypto/tink-go/v2/keyset.ReadWithAssociatedData":            "verifStubReadWithAD",
 }
 
 func withReal(m map[string]string, real ...string) map[string]string {
